@@ -403,12 +403,14 @@ Definition starts_cmd (ps : list piece) : bool :=
 Record case := { c_be : backend; c_batch : batch; c_broker : str; c_step : step;
                  c_cmd : list piece; c_restart : list piece }.
 
-Definition batch_keys_ok (b : batch) : bool :=
+(** the local adapter needs no host / bank / queue *)
+Definition batch_keys_ok (be : backend) (b : batch) : bool :=
   nodup_keys (b_kw b)
-  && forallb (fun k => match lookup k (b_kw b) with
-                       | Some v => truthy v && safe_tok (render v)
-                       | None => false
-                       end) [s "host"; s "bank"; s "queue"]
+  && (backend_eqb be Local
+      || forallb (fun k => match lookup k (b_kw b) with
+                           | Some v => truthy v && safe_tok (render v)
+                           | None => false
+                           end) [s "host"; s "bank"; s "queue"])
   && forallb (val_safe (b_kw b)) [RReservation; RQos; RGpus]
   && count_ok (b_kw b) RNodes && count_ok (b_kw b) RTasks
   && match lookup (s "shell") (b_kw b) with
@@ -427,7 +429,7 @@ Definition H15 (c : case) : bool :=
   && negb (has (s "cmd") (st_res st)) && negb (has (s "restart") (st_res st))
   && count_ok (st_res st) RNodes && count_ok (st_res st) RTasks
   && forallb (val_safe (st_res st)) res_keys_str
-  && batch_keys_ok (c_batch c).
+  && batch_keys_ok (c_be c) (c_batch c).
 
 (** * Known findings K6: signature predicates *)
 (** K6a: the documented batch-level [gpus] never reaches a header or launcher *)
